@@ -3,7 +3,8 @@
    services/metrics.trades as plain definitions over exact rationals; harness/c16.py evaluates them in Coq against the real
    function on synthetic trade lists, and checks the ratio metrics and the equity samples on the implementation. *)
 From Coq Require Import ZArith QArith Qcanon List Bool Arith.
-From JV Require Import Base.Num Model.Indicators Model.Metrics Proofs.MetricsProofs Proofs.MetricsSpec.
+From Coq Require Import Permutation.
+From JV Require Import Base.Num Model.Indicators Model.Metrics Proofs.MetricsProofs Proofs.MetricsSpec Proofs.MetricsOrder.
 Import ListNotations.
 Local Open Scope Qc_scope.
 
@@ -63,6 +64,19 @@ Example C16_streaks_example :
   streaks [t 1; t 2; t (-1); t 1; t 1; t 3; t 0; t (-2); t (-1)]%Q = ((-2)%Z, 3%nat, 2%nat).
 Proof. vm_compute. reflexivity. Qed.
 
+(* "any long/short mix and order": the counting and summing metrics are the same for every reordering of the trade list *)
+Theorem C16_metrics_do_not_depend_on_order : forall l l', Permutation l l' ->
+  total l = total l' /\ length (wins l) = length (wins l') /\ length (losses l) = length (losses l') /\
+  net_profit l = net_profit l' /\ gross_profit l = gross_profit l' /\ gross_loss l = gross_loss l' /\ fee_sum l = fee_sum l' /\
+  longs l = longs l' /\ shorts l = shorts l' /\ win_rate l = win_rate l' /\ average_win l = average_win l' /\ average_loss l = average_loss l' /\
+  expectancy l = expectancy l'.
+Proof. exact metrics_do_not_depend_on_order. Qed.
+(* average win / loss follow from the PnL sequence: they lie between 0 and the largest win / the size of the largest loss *)
+Theorem C16_average_win_between : forall l, wins l <> [] -> 0 <= average_win l /\ average_win l <= largest_win l.
+Proof. exact average_win_between. Qed.
+Theorem C16_average_loss_between : forall l, losses l <> [] -> 0 <= average_loss l /\ average_loss l <= - largest_loss l.
+Proof. exact average_loss_between. Qed.
+
 Print Assumptions C16_total_is_winners_losers_breakeven.
 Print Assumptions C16_net_profit_is_gross_profit_plus_gross_loss.
 Print Assumptions C16_longs_and_shorts_partition.
@@ -77,3 +91,6 @@ Print Assumptions C16_largest_loss_spec.
 Print Assumptions C16_drawdown_is_distance_from_running_peak.
 Print Assumptions C16_max_drawdown_is_one_of_the_drawdowns.
 Print Assumptions C16_max_drawdown_range.
+Print Assumptions C16_metrics_do_not_depend_on_order.
+Print Assumptions C16_average_win_between.
+Print Assumptions C16_average_loss_between.
